@@ -1385,6 +1385,35 @@ class Evaluator:
                 return a[1]
             return ("pack", a, b)
         # ---- atomics
+        m = re.search(r"atomic::Atomic(?:U32|U64|Usize|Bool|::<\w+>)?::fetch_update(::<.*>)?$", c)
+        if m and len(args) == 4:
+            # a.fetch_update(set, fetch, |cur| (cur == X).then_some(new)) is compare_exchange(X, new, set, fetch): a CAS loop that gives up as soon as the value is
+            # not the expected one.  Any other closure is left opaque.
+            tgt = self._target(args[0])
+            fval = self._deref_val(args[3])
+            cb = self.facts.body(fval[1]) if tag(fval) == "closure" else None
+            if cb is not None and self._should_inline(cb, cb.path):
+                cur = ("load", site + ("fetch_update",), tgt)
+                cself = ("ref", ("tmp", fval)) if cb.locals[1]["ty"].startswith("&") else fval
+                entry2 = self._log(frame, bi, None, kind="closure-call", closure=fval, on="current value", recv=cur)
+                r = self._inline(frame, bi, cb, [cself, cur], entry2)
+                if tag(r) == "filter" and tag(r[1]) == "variant" and r[1][2] == "Some" and tag(r[2]) == "cmp" and r[2][1] == "Eq" and cur in (r[2][2], r[2][3]):
+                    exp = r[2][3] if r[2][2] == cur else r[2][2]
+                    new_ = r[1][3][0]
+                    uses_cur = []
+                    _walk_terms(("tuple", (exp, new_)), lambda x: uses_cur.append(1) if x == cur else None)
+                    if not uses_cur:
+                        entry["atomic"] = "compare_exchange"
+                        entry["target"] = tgt
+                        entry["expected"], entry["new"] = exp, new_
+                        entry["ordering"] = _ordering(args[1])
+                        entry["fail_ordering"] = _ordering(args[2])
+                        entry["via"] = "fetch_update"
+                        self.heap.pop(("atomic", tgt), None)
+                        return ("cas", site, tgt, exp, new_)
+            self.heap.pop(("atomic", tgt), None)
+            self._invalidate()
+            return ("call", c, tuple(args), site)
         m = re.search(r"atomic::Atomic(?:U32|U64|Usize|Bool|::<\w+>)?::(load|store|compare_exchange|compare_exchange_weak|fetch_add|fetch_sub|swap|fetch_or|fetch_and|new|into_inner|get_mut)$", c)
         if m:
             op = m.group(1)
@@ -1678,6 +1707,15 @@ class Evaluator:
                 return ("chunksnext", r[1], r[2]) + tuple(r[3:])
             self._invalidate(args)
             return ("call", c, tuple(args))
+        if re.search(r"iter::Iterator>?::by_ref$|Iterator::by_ref$", c) and len(args) == 1:
+            return args[0]      # `it.by_ref()` is `&mut it`
+        if re.search(r"slice::(iter::)?ChunksExact::<.*>::remainder$", c) and len(args) == 1 and tag(self._deref_val(args[0])) == "chunks":
+            # what chunks_exact leaves out: the last len % n bytes of the slice, i.e. slice[len - len % n ..]
+            ch = self._deref_val(args[0])
+            ln = ("len", ch[1])
+            return ("call", "<[T] as std::ops::Index<std::ops::RangeFrom<usize>>>::index", (ch[1], mk_struct("std::ops::RangeFrom", {"start": sub(ln, ("rem", ln, ch[2]))})))
+        if re.search(r"iter::Iterator>?::for_each$|Iterator::for_each$", c) and len(args) == 2 and tag(args[0]) == "ref" and tag(self._deref_val(args[0])) == "chunks":
+            args = [self._deref_val(args[0]), args[1]]      # `(&mut chunks).for_each(f)` after `by_ref()`
         if re.search(r"iter::Iterator>?::for_each$|Iterator::for_each$", c) and len(args) == 2 and tag(args[0]) == "chunks":
             # chunks.for_each(f): f is applied to the consecutive chunks in order (the contract of slice::chunks / chunks_exact); evaluated once on a
             # generic chunk, every entry of the closure is marked with the chunks term it ranges over
